@@ -124,10 +124,25 @@ func (t *fnTr) call(e *ast.CallExpr, env *Env) (val, error) {
 	fun := e.Fun
 	// explicit instantiation f[float64](...)
 	if ix, ok := fun.(*ast.IndexExpr); ok {
-		if id, ok := ix.Index.(*ast.Ident); !ok || id.Name != "float64" {
+		if id, ok := ix.Index.(*ast.Ident); ok && id.Name == "float64" && env.lookup("float64") == nil {
+			fun = ix.X
+		} else if xid, ok := ix.X.(*ast.Ident); ok && env.lookup(xid.Name) != nil {
+			// xs[k](args): call of a function-valued list element
+			fv, err := t.expr(ix, env)
+			if err != nil {
+				return val{}, err
+			}
+			if fv.ty.K != KFunc {
+				return val{}, t.errf(e, "call of an indexed value which is not a function")
+			}
+			args, err := t.argVals(e.Args, fv.ty.Params, env, e)
+			if err != nil {
+				return val{}, err
+			}
+			return val{"(" + strings.Join(append([]string{fv.code}, args...), " ") + ")", fv.ty.Elems[0]}, nil
+		} else {
 			return val{}, t.errf(e, "unsupported generic instantiation (only [float64])")
 		}
-		fun = ix.X
 	}
 	switch f := fun.(type) {
 	case *ast.ParenExpr:
@@ -157,7 +172,19 @@ func (t *fnTr) call(e *ast.CallExpr, env *Env) (val, error) {
 				return val{}, t.errf(e, "unsupported conversion of %s to float64", v.ty)
 			}
 			return v, nil
-		case "panic", "len", "cap", "append", "make", "new", "copy", "delete", "min", "max", "float32", "int", "int64", "int32", "uint8", "byte":
+		case "len":
+			if len(e.Args) != 1 {
+				return val{}, t.errf(e, "bad len call")
+			}
+			v, err := t.expr(e.Args[0], env)
+			if err != nil {
+				return val{}, err
+			}
+			if v.ty.K != KList {
+				return val{}, t.errf(e, "unsupported len of %s", v.ty)
+			}
+			return val{"(Z.of_nat (length " + v.code + "))", tInt}, nil
+		case "panic", "cap", "append", "make", "new", "copy", "delete", "min", "max", "float32", "int", "int64", "int32", "uint8", "byte":
 			return val{}, t.errf(e, "unsupported builtin %s", f.Name)
 		}
 		// function of the same package
